@@ -344,6 +344,8 @@ CORPUS["C15"] = [
 ]
 
 CORPUS["C16"] = [
+    M("header filter turns None into text", (RT, 'import datetime\n', 'import datetime\nimport math\n'), (RT, "def init(", 'def _header_value(value):\n    if isinstance(value, (bool, int, str)):\n        return value\n    if isinstance(value, float) and math.isfinite(value):\n        return value\n    return str(value)\n\n\ndef init('), (RT, '                **flatten_dict(config.model_dump(), "HIERARCH Config", sep=" "),', '                **{k: _header_value(v) for k, v in flatten_dict(config.model_dump(), "HIERARCH Config", sep=" ").items()},')),
+    B("header filter keeps every value a card can hold, text for the rest", (RT, 'import datetime\n', 'import datetime\nimport math\n'), (RT, "def init(", 'def _header_value(value):\n    if value is None or isinstance(value, (bool, int, str)):\n        return value\n    if isinstance(value, float) and math.isfinite(value):\n        return value\n    return str(value)\n\n\ndef init('), (RT, '                **flatten_dict(config.model_dump(), "HIERARCH Config", sep=" "),', '                **{k: _header_value(v) for k, v in flatten_dict(config.model_dump(), "HIERARCH Config", sep=" ").items()},')),
     M("longitude read from the latitude key", (CFG, '"longitude": d("initial_position longitude"),', '"longitude": d("initial_position latitude"),')),
     M("mono key read for every spectrum", (CFG, '    spectrum = {"id": s("spectrum id")}\n    if spectrum["id"] == "powerspectrum":\n        for k in ("index", "lower_bound", "upper_bound"):\n            spectrum[k] = s("spectrum " + k)\n    else:\n        spectrum["log_nu_energy"] = s("spectrum log_nu_energy")', '    spectrum = {"id": s("spectrum id"), "log_nu_energy": s("spectrum log_nu_energy")}')),
     M("key typo", (CFG, '"gain": d("radio gain"),', '"gain": d("radio antenna_gain"),')),
